@@ -210,7 +210,13 @@ fn judge(p: &ProcOut, exp_status: &str, exp_out: &[Value]) -> Option<(String, St
         if *l != want {
             // a zero result may be spelled 0, 0.0 or -0.0 (left open by the statements)
             let zero = |t: &str| t == "0" || t == "0.0" || t == "-0.0";
-            if !(zero(l) && zero(&want)) {
+            // the order of an object's keys in the serialisation is not pinned: the same value with its keys in
+            // another order is the same line
+            let same_value = match (serde_json::from_str::<Value>(l), serde_json::from_str::<Value>(&want)) {
+                (Ok(a), Ok(b)) => aj::same(&aj::to_aj(&a), &aj::to_aj(&b), false),
+                _ => false,
+            };
+            if !(zero(l) && zero(&want)) && !same_value {
                 return Some(("mismatch".into(), format!("stdout line {} is {}, expected {}", i + 1, l, want)));
             }
         }
@@ -254,7 +260,12 @@ pub fn cmd_cli(args: &[String]) {
             let last = text.trim_end_matches('\n').rsplit('\n').next().unwrap_or("").to_string();
             if lib.ok != (p.code == Some(0)) {
                 verdict = Some(("mismatch".into(), format!("CLI status {:?} but the library returned {}", p.code, if lib.ok { "Ok" } else { "Err" })));
-            } else if lib.ok && last != lib.v.to_string() {
+            } else if lib.ok
+                && last != lib.v.to_string()
+                // the same value with its object members in another order is the same serialisation as far as
+                // the statement goes (the process parsed the styled text, the library call the canonical value)
+                && !serde_json::from_str::<Value>(&last).map(|a| aj::to_aj(&a) == aj::to_aj(&lib.v)).unwrap_or(false)
+            {
                 verdict = Some(("mismatch".into(), format!("CLI result line {} differs from the library's serialisation {}", last, lib.v)));
             }
         }
